@@ -208,8 +208,13 @@ NAMING_SELFPREFIX = {
     "p": "rp",
     "q": "a",
 }
+# siblings whose names differ from a package name only by a character that sorts before "." (a
+# directory db-old next to the package db): in the sorted list of names they stand between the
+# package and its own sub modules
+NAMING_HYPHEN = {"r": "r", "a": "a", "b": "a-b", "c": "a+b", "d": "a b", "e": "a!", "p": "p", "q": "q"}
 NAMINGS = {
     "identity": {},
+    "hyphen": NAMING_HYPHEN,
     "plain": NAMING_PLAIN,
     "adversarial": NAMING_ADVERSARIAL,
     "unicode": NAMING_UNICODE,
